@@ -201,6 +201,21 @@ def top_reads(t, stack_field):
     return eps
 
 
+def stack_methods(facts, stack):
+    """Every `&mut Board` method from which a push / pop on MoveInfo.<stack> can be reached: the named delegators and any method a
+    maintainer adds beside them (a combined `push_move_state`) - each of them changes the top of the stack and must re-key the hash."""
+    writers = {f.name for f, b, how, fl in field_writes(facts, MI, stack, kinds=('lib',)) if not f.derived and f.impl_trait != 'std::default::Default'}
+    out = []
+    for name, f in sorted(facts.fns.items()):
+        if not name.startswith(BOARD + '::') or f.kind == 'Closure' or f.crate != 'chess' or f.crate_kind != 'lib' or f.derived:
+            continue
+        if f.arg_count < 1 or f.local_ty(1) != '&mut ' + BOARD:
+            continue
+        if facts.reachable_fns([name]) & writers:
+            out.append(name)
+    return out
+
+
 def r23_stacks(ctx):
     facts = ctx.facts
     eng = Engine(facts)
@@ -210,20 +225,30 @@ def r23_stacks(ctx):
     ]
     for rule, stack, kind, methods in cases:
         n = 0
-        for m in methods:
-            name = BOARD + '::' + m
+        names = [BOARD + '::' + m for m in methods]
+        names += [x for x in stack_methods(facts, stack) if x not in names]
+        for name in names:
+            if facts.fns.get(name) is None:
+                continue                      # a delegator that was merged away: whatever took its place is in the discovered list
             outs = eng.run(name)
             ctx.touch(name)
             for o in outs:
                 if o.kind != 'return':
                     continue
                 ops = stack_ops(o, stack)
+                keys = final_hash_toggles(o)
+                if keys is not None:
+                    keys = [k for k in keys if k[0] == kind or k[0] not in ('rights', 'ep', 'piece')]       # this stack's keys (+ unknown ones)
+                if not ops:
+                    # a path of a combined method that leaves this stack alone must not toggle its keys either
+                    if keys:
+                        ctx.ob(rule, name, 'toggle without a change of the stack', False, found=[show_key(k) for k in keys], expected='no %s key toggled' % kind)
+                    continue
                 if len(ops) != 1:
                     ctx.ob(rule, name, 'exactly one stack operation', False, found=[x[0] for x in ops], expected='one push or pop')
                     continue
                 n += 1
                 op, val, pos, ev = ops[0]
-                keys = final_hash_toggles(o)
                 if keys is None:
                     ctx.ob(rule, name, 'hash update recognised', False, found=show(o.heap.get(HASH_LV)), expected='hash ^= key ...')
                     continue
@@ -271,6 +296,26 @@ def r23_stacks(ctx):
                                 excused.add('old-top(read before)')
                             if tr and all(e >= after_epoch for e in tr) and op == 'pop':
                                 excused.add('new-top(read after)')
+                # `if old != new { toggle(old); toggle(new) }`: on the path where the two tops were found EQUAL the two toggles cancel and
+                # may be skipped altogether
+                def side(t_):
+                    x_ = strip_payload(t_)
+                    if x_ == strip_payload(val):
+                        return 'new' if op == 'push' else 'old'
+                    tr_ = top_reads(t_, stack)
+                    if tr_ and all(e_ <= before_epoch for e_ in tr_):
+                        return 'old' if op == 'push' else None
+                    if tr_ and all(e_ >= after_epoch for e_ in tr_):
+                        return 'new' if op == 'pop' else None
+                    return None
+                for a, v in o.conds:
+                    l_ = r_ = None
+                    if a[0] == 'bin' and a[1] in ('Eq', 'Ne'):
+                        l_, r_, eq_ = a[2], a[3], (a[1] == 'Eq') == bool(v) if v in (0, 1, True, False) else None
+                    elif a[0] == 'eq':
+                        l_, r_, eq_ = a[1], a[2], bool(v) if v in (0, 1, True, False) else None
+                    if l_ is not None and eq_ and {side(l_), side(r_)} == {'old', 'new'}:
+                        excused |= {'old-top(read before)', 'new-top(pushed)', 'new-top(read after)', 'old-top(popped)'}
                 if op == 'push':
                     core = strip_payload(val)
                     if core[0] == 'fld' and core[2] == 'Some.0':
